@@ -149,13 +149,11 @@ def electrostatic_potential(
     hartree_potential = np.sum(hartree_potential, axis=(0, 1))
 
     distances = np.sum((points[:, :, None] - nuclear_coords.T[None, :, :]) ** 2, axis=1) ** 0.5
-    # silence warning for dividing by zero
-    old_settings = np.seterr(divide="ignore")
-    external_potential = nuclear_charges[None, :] / distances
+    # silence warning for dividing by zero (the previous settings are restored even on error)
+    with np.errstate(divide="ignore"):
+        external_potential = nuclear_charges[None, :] / distances
     # zero out potentials of elements that are too close to the nucleus
     external_potential[distances < threshold_dist] = 0
-    # restore old settings
-    np.seterr(**old_settings)
     # sum over potentials for each dimension
     external_potential = -np.sum(external_potential, axis=1)
 
